@@ -42,11 +42,11 @@ class Killed(Exception):
 def lattice_spec(
     n=4, moves=None, workers=1, steps=20, seed=1, cap=None, wall=-1, n_jumps=2, maxlength=400,
     allowmaxlength=False, delete_old=False, delete_old_all=False, subcycles=1, screen=0,
-    engine="lattice", ensemble_engines=None, extra_engines=None, zeroswap=None, origin=0.0,
+    engine="lattice", ensemble_engines=None, extra_engines=None, zeroswap=None, origin=0.0, lm1=None,
 ):
     moves = list(moves) if moves else ["sh"] * n
     return dict(
-        origin=origin,
+        origin=origin, lm1=lm1,
         n=n, moves=moves, workers=workers, steps=steps, seed=seed, cap=cap, wall=wall, n_jumps=n_jumps,
         maxlength=maxlength, allowmaxlength=allowmaxlength, delete_old=delete_old,
         delete_old_all=delete_old_all, subcycles=subcycles, screen=screen, engine=engine,
@@ -69,6 +69,8 @@ def lattice_config(spec):
     origin = float(spec.get("origin", 0.0) or 0.0)
     if spec.get("cap") is not None:
         tis_set["interface_cap"] = spec["cap"] - origin
+    if spec.get("lm1") is not None:  # the [0-] ensemble is bounded on the left by lambda_-1 (the wall must lie below it)
+        tis_set["lambda_minus_one"] = spec["lm1"] - origin
     eng = {
         "class": "LatticeEngine",
         "module": "latticeeng.py",
